@@ -13,7 +13,13 @@ for n in $names; do
   [ -f $d/patch.diff ] || continue
   if python3 -c "import json,sys;sys.exit(0 if 'superseded_by' in json.load(open('$d/meta.json')) else 1)"; then echo "$n: superseded (the code it edits was replaced by a later fix)"; continue; fi
   checks=$(python3 -c "import json;print(' '.join(json.load(open('$d/meta.json'))['caught_by']))")
-  git -C $REPO apply $V/$d/patch.diff || { echo "$n: patch does not apply"; missed=$((missed+1)); continue; }
+  base=$(python3 -c "import json;print(json.load(open('$d/meta.json')).get('base_commit',''))")
+  if [ -n "$base" ]; then
+    [ "$REPO" = /repo ] && { echo "$n: needs base commit $base - run with RECHECK_REPO set to a private copy"; continue; }
+    git -C $REPO checkout -q --detach $base
+  fi
+  src=$V/$d/patch.diff
+  git -C $REPO apply $src || { echo "$n: patch does not apply"; missed=$((missed+1)); [ -n "$base" ] && git -C $REPO checkout -q --detach $(git -C /repo rev-parse HEAD); continue; }
   caught=""
   for c in $checks; do
     ./check $c quick > out/recheck.$n.$c.log 2>&1; rc=$?
@@ -21,6 +27,7 @@ for n in $names; do
     [ $rc -eq 2 ] && caught="$caught $c(HARNESS-ERROR)"
   done
   git -C $REPO checkout -- .
+  [ -n "$base" ] && git -C $REPO checkout -q --detach $(git -C /repo rev-parse HEAD)
   [ -z "$checks" ] && { echo "$n: left unreported on purpose (see DESIGN 9.7)"; continue; }
   if [ -z "$caught" ]; then echo "$n: NOT CAUGHT (ran: $checks)"; missed=$((missed+1)); else echo "$n: caught by$caught"; fi
 done
